@@ -243,8 +243,54 @@ mod decoys {
     pub mod mem { pub fn size_of<T>() -> usize { 0 } }
     pub mod slice { pub unsafe fn from_raw_parts<'a, T>(_: *const T, _: usize) -> &'a [T] { &[] } }
     pub mod ptr { pub fn eq<T: ?Sized>(_: *const T, _: *const T) -> bool { true } }
+    // traits that give every type by-value methods named like the std methods a template might call with method syntax: method resolution
+    // tries by-value receivers first, so `a.cmp(&b)`, `x.clone()`, `v.into()`, `s.hash(h)`, `t.eq(&u)` written in generated code would land here
+    // (the methods of the core::fmt builders are left out: the Debug templates do call them with method syntax - known finding of C19)
+    pub mod ambient {
+        use ::core::cmp::Ordering;
+        pub trait AmbCmp: Sized { fn cmp(self, _: &Self) -> Ordering { Ordering::Greater } fn partial_cmp(self, _: &Self) -> ::core::option::Option<Ordering> { ::core::option::Option::None }
+            fn eq(self, _: &Self) -> bool { true } fn ne(self, _: &Self) -> bool { true } fn lt(self, _: &Self) -> bool { true } fn then(self, _: Ordering) -> Ordering { Ordering::Greater } }
+        impl<T> AmbCmp for T {}
+        pub trait AmbClone: Sized { fn clone(self) -> Self { panic!("ambient clone") } fn clone_from(self, _: &Self) { panic!("ambient clone_from") } fn into<U>(self) -> U { panic!("ambient into") }
+            fn hash<H>(self, _: &mut H) { panic!("ambient hash") } fn fmt(self, _: &mut ::core::fmt::Formatter<'_>) -> ::core::fmt::Result { panic!("ambient fmt") }
+            fn deref(self) -> Self { panic!("ambient deref") } fn unwrap(self) -> Self { panic!("ambient unwrap") } }
+        impl<T> AmbClone for T {}
+    }
 }
 '''
+
+
+def scope_item(body):
+    """move the first `#[derive(Educe..)]` item of a case into a nested module that also has the ambient traits in scope (the case's own code stays
+    outside, so its method calls are not affected); the body is returned unchanged if the item cannot be delimited or has private parts"""
+    import re
+    i = body.find('#[derive(Educe')
+    if i < 0:
+        return body
+    m = re.compile(r'\bpub (struct|enum|union) Ty\b').search(body, i)
+    if not m:
+        return body
+    j = m.end()
+    depth, end = 0, None
+    while j < len(body):
+        c = body[j]
+        if c in '([{':
+            depth += 1
+        elif c in ')]}':
+            depth -= 1
+            if depth == 0 and c == '}':
+                end = j + 1
+                break
+        elif c == ';' and depth == 0:
+            end = j + 1
+            break
+        j += 1
+    if end is None:
+        return body
+    item = body[i:end]
+    if m.group(1) != 'enum' and re.search(r'(?m)^\s*(?:#\[[^\n]*\]\s*)*(?!pub\b)[a-z_][A-Za-z0-9_#]*\s*:', item):
+        return body       # a private field: the harness outside the module could not reach it
+    return body[:i] + '#[allow(unused)]\nmod scoped {\n    #[allow(unused_imports)] use super::*;\n    #[allow(unused_imports)] use super::decoys::ambient::*;\n' + item + '\n}\n#[allow(unused_imports)] pub use self::scoped::Ty;\n' + body[end:]
 
 
 def with_decoys(case):
@@ -253,6 +299,7 @@ def with_decoys(case):
     from ..core import Case
     # the case's own relative std paths are made absolute first
     body = re.sub(r'(?<![:A-Za-z0-9_])(std|core|alloc)::', r'::\1::', case.body)
+    body = scope_item(body)
     spec = dict(case.spec)
     spec['environment'] = 'decoy core / std / alloc modules in scope'
     return Case(case.key + '|decoys', DECOYS + body, spec, case.expect, case.run, case.depth + 1, case.tags)
